@@ -125,6 +125,17 @@ CLAIMED["C03"] = dict(
          "and reset, over full extents, each copy folded once. Numeric equality between layouts and the neighbour wiring are not decided.",
     note="Trusted: clang, AST export; signature from C02-T1; assumption A1 (mutual, geometrically correct neighbour tables).")
 
+CLAIMED["C10"] = dict(
+    level="other", design="3/C10",
+    technique="static analysis: symbolic (cell-count parametric) evaluation of the sweep loop nests and 6-face tables against the cell "
+              "index formula taken from the code, sibling agreement, dispatch exhaustiveness, task-graph data-dependency coverage",
+    text="Decides for all cell counts and layouts that internal sweeps plus one pair sweep per interface visit exactly the faces of the "
+         "undivided grid with the two adjacent cells (left = last layer of the left grid, right = first layer of the right grid, one shared "
+         "column/row map, this/neighbour per side, axis quantities of that axis), that gradient and flux sweeps agree, that every hydro task "
+         "type runs the sweep of its kind on the face/neighbour stored in the task, and that every sweep touching a subgrid precedes that "
+         "subgrid's next phase in the task graph (C07 rules G1, G2, G4, G8 re-checked). Summation round-off and bit reproducibility are not decided.",
+    note="Trusted: clang, AST export, sympy polynomial arithmetic; assumption A1 (neighbour tables) and C08 container guarantees.")
+
 NOT_APPLICABLE = {
     "C13": "Equality with the RANLUX sequence, range [0,1) and byte-identical snapshots are facts about computed 48-bit arithmetic and library I/O; no sound static domain or on-disk reference to validate against. Its one structural clause (generator state fully dumped/restored) is decided under C09.",
     "C15": "Validity of a Voronoi tessellation and agreement of two constructions quantify over real generator sets; correctness rests on geometric predicates and flip sequences whose outcomes are runtime values; no clause has its truth in the shape of the code.",
